@@ -37,23 +37,24 @@ class JobCtx:
         self.t0 = time.time()
         self.obligations = 0; self.discharged = 0; self.queries = 0; self.solver_s = 0.0
         self.cex = []; self.inconclusive = []; self.samples = []; self.reached = 0; self.panics = {}
-        self.covers = set(); self.paths = 0; self.notes = []; self.validated = 0
+        self.covers = set(); self.paths = 0; self.notes = []; self.validated = 0; self.witnesses = []
     COUNTERS = ('obligations', 'discharged', 'queries', 'solver_s', 'reached', 'paths', 'validated')
     def _reset_counters(self):
         for k in self.COUNTERS: setattr(self, k, 0)
-        self.cex = []; self.inconclusive = []; self.samples = []; self.panics = {}; self.covers = set(); self.notes = []
+        self.cex = []; self.inconclusive = []; self.samples = []; self.panics = {}; self.covers = set(); self.notes = []; self.witnesses = []
         ex = self.ex
         for k in ex.stats: ex.stats[k] = 0
         ex.covers = set(); ex.used_fns = set(); ex.used_models = set(); ex.abstracted = 0
     def _partial(self):
         ex = self.ex
         d = dict((k, getattr(self, k)) for k in self.COUNTERS)
-        d.update(cex=self.cex, inconclusive=self.inconclusive, samples=self.samples, panics=self.panics, covers=self.covers | ex.covers, notes=self.notes,
+        d.update(witnesses=self.witnesses, cex=self.cex, inconclusive=self.inconclusive, samples=self.samples, panics=self.panics, covers=self.covers | ex.covers, notes=self.notes,
                  stats=dict(ex.stats), used_fns=ex.used_fns, used_models=ex.used_models, abstracted=ex.abstracted)
         return d
     def _merge(self, d):
         ex = self.ex
         for k in self.COUNTERS: setattr(self, k, getattr(self, k) + d[k])
+        self.witnesses = (self.witnesses + d.get('witnesses', []))[:4]
         self.cex += d['cex']; self.inconclusive += d['inconclusive']; self.samples = (self.samples + d['samples'])[:3]
         for k, v in d['panics'].items(): self.panics[k] = self.panics.get(k, 0) + v
         self.covers |= d['covers']; self.notes += d['notes']
@@ -133,6 +134,14 @@ class JobCtx:
         self.panics[p.msg] = self.panics.get(p.msg, 0) + 1
         if allowed and allowed(p.msg): return True
         return self.prove(pc, False, clause, mk_cex)
+    def witness(self, pc, build_fn, limit=2):
+        """translator validation: a satisfying (non-violating) assignment of this path, replayed natively by the
+        driver and compared with the symbolic result under the same assignment"""
+        if len(self.witnesses) >= limit: return
+        m = self.sat(pc)
+        if m is None: return
+        w = build_fn(m)
+        if w is not None: w['job'] = self.name; self.witnesses.append(w)
     def sample(self, s):
         if len(self.samples) < 3: self.samples.append(s)
     def result(self):
@@ -141,7 +150,7 @@ class JobCtx:
                     steps=ex.stats['steps'], calls=ex.stats['calls'], obligations=self.obligations, discharged=self.discharged,
                     closing_queries=self.queries, closing_solver_s=round(self.solver_s, 2), cex=self.cex, inconclusive=self.inconclusive,
                     samples=self.samples, reached=self.reached, panics=self.panics, covers=sorted(self.covers | ex.covers),
-                    fns=sorted(ex.used_fns), models=sorted(ex.used_models), wall_s=round(time.time() - self.t0, 2), notes=self.notes,
+                    witnesses=self.witnesses, fns=sorted(ex.used_fns), models=sorted(ex.used_models), wall_s=round(time.time() - self.t0, 2), notes=self.notes,
                     abstracted_products=ex.abstracted, validated=self.validated)
 
 _current_child_ctx = None
@@ -232,7 +241,18 @@ def run_check(prop, tier, seed, only=None, nproc=None):
             json.dump(dict(property=prop, clause=key[0], signature=key[1], what=confirmed.get('what'), scenario=confirmed.get('scenario'),
                            expect=confirmed.get('expect'), native=details[-1], count=len(cs)), open(path, 'w'), indent=1)
             violations.append((key, path, confirmed))
+    # ---- translator validation: satisfying assignments replayed natively must agree with the symbolic result
+    wit = [w for r in results for w in r.get('witnesses', [])[:1]]
+    rnd.shuffle(wit); nval = 0; mism = []
+    if hasattr(mod, 'validate') and not only:
+        for w in wit[:int(os.environ.get('VERIF_WITNESSES', '10' if tier == 'quick' else '60'))]:
+            try: okw, detail = mod.validate(w)
+            except Exception as e: okw, detail = False, 'replay failed: %s' % e
+            if okw: nval += 1
+            else: mism.append('%s: %s' % (w.get('job'), detail))
+    validated += nval
     inconclusive = [m for r in results for m in r.get('inconclusive', [])]
+    for x in mism: inconclusive.append('ENGINE-DISAGREEMENT (translator validation): symbolic result differs from the native run: ' + x[:500])
     # vacuity: every job must have reached its assertions on at least one feasible path
     for r in results:
         if not r.get('inconclusive') and r.get('obligations', 0) == 0:
